@@ -576,6 +576,10 @@ func UnmarshalVectorYAML(value *yaml.Node) (*GeneralizedType, error) {
 	return t, nil
 }
 
+// The largest number of array dimensions that can be given as a count ("dimensions: 3"): one
+// dimension object is allocated per dimension, so the count must be bounded.
+const maxArrayDimensionCount = 1024
+
 func UnmarshalArrayYAML(value *yaml.Node) (*GeneralizedType, error) {
 	if value.Kind != yaml.MappingNode {
 		return nil, parseError(value, "an !array must be specified with field `items` and optionally `dimensions`")
@@ -605,6 +609,9 @@ func UnmarshalArrayYAML(value *yaml.Node) (*GeneralizedType, error) {
 				}
 				if ndims < 0 {
 					return nil, parseError(v, "the number of dimensions cannot be negative")
+				}
+				if ndims > maxArrayDimensionCount {
+					return nil, parseError(v, "the number of dimensions cannot exceed %d", maxArrayDimensionCount)
 				}
 
 				dims := make(ArrayDimensions, ndims)
